@@ -1164,6 +1164,11 @@ def be_int(b):
             # integer (over-approximation: nothing is claimed about it)
             v = CUR.fresh_int("bigval")
             CUR.add(v >= 0)
+            # sound facts about the real value: it is at least its first and its last byte (so a non-zero byte at either end
+            # excludes the value 0), and an empty string has value 0
+            first, last = b.at(0), b.at(n - 1)
+            CUR.add(z3.Implies(T(n) >= 1, z3.And(v >= T(first), v >= T(last))))
+            CUR.add(z3.Implies(T(n) == 0, v == 0))
             return SymInt(v)
     v = 0
     for k in range(n):
